@@ -684,9 +684,14 @@ func main() {
 		hx.ReadReplay(o.Replay, &in)
 		inputs = append(inputs, in)
 	} else {
+		for _, f := range c1819.CorpusFiles("c18") {
+			var in input
+			hx.ReadReplay(f, &in)
+			inputs = append(inputs, in)
+		}
 		inputs = append(inputs, corpus()...)
 		inputs = append(inputs, updaterCorpus()...)
-		np, nu := o.Count(1200, 20000), o.Count(1000, 15000)
+		np, nu := o.Count(1200, 12000), o.Count(1000, 10000)
 		if o.Search {
 			np, nu = 12000, 6000
 		}
